@@ -93,6 +93,10 @@ type Axiom struct {
 	Canary  bool
 }
 
+type PureIface struct {
+	Pkg, Name, File string
+}
+
 type GhostVar struct {
 	Name string
 	T    *SType
@@ -117,6 +121,7 @@ type Contracts struct {
 	Ghost     map[string]*GhostVar
 	Regex     map[string]string // name -> raw SMT regex term
 	Tables    []*TableSpec
+	PureIfaces []PureIface // `trusted pure interface pkg.Name`: every method is a pure accessor
 	Files     []string
 	RawLines  map[string][]string // file -> lines (for trusted scan)
 }
@@ -274,6 +279,15 @@ func (c *Contracts) ParseText(path string, text string, pkgPath string) error {
 			c.Tables = append(c.Tables, curTable)
 			cur, curAx = nil, nil
 		case "trusted", "pure", "iterator", "func", "inline":
+			if f := strings.Fields(l.text); len(f) == 4 && f[0] == "trusted" && f[1] == "pure" && f[2] == "interface" {
+				name, pkg := f[3], curPkg
+				if i := strings.LastIndex(name, "."); i >= 0 {
+					pkg, name = name[:i], name[i+1:]
+				}
+				c.PureIfaces = append(c.PureIfaces, PureIface{pkg, name, path})
+				cur, curAx, curTable = nil, nil, nil
+				continue
+			}
 			fc := &FuncContract{Loops: map[int]*LoopSpec{}, Closures: map[int]*LoopSpec{}, File: path, Line: l.line}
 			text := l.text
 			for {
@@ -831,6 +845,9 @@ func (c *Contracts) TrustedScan(props map[string]bool) []string {
 		for _, s := range f.Skip {
 			out = append(out, "statement abstracted by havoc in "+k+": "+s)
 		}
+	}
+	for _, pi := range c.PureIfaces {
+		out = append(out, "trusted: every method of interface "+pi.Pkg+"."+pi.Name+" is a pure accessor (function of receiver and arguments)")
 	}
 	for _, a := range c.AxiomList {
 		if !a.Lemma {
